@@ -2,6 +2,7 @@ import PsV.Proofs.ConvSpec
 import PsV.Proofs.ConvEval
 import PsV.Proofs.ConvDriver
 import PsV.Proofs.ConvNd
+import PsV.Proofs.ConvDriverNd
 /-!
 # C14 — convolution produces the true convolution with the unit-area kernel spline
 
@@ -9,7 +10,7 @@ Property theorems only; they are about `PsV.convolve`, `PsV.coefLoops`, `PsV.fac
 `PsV.divdiff` — the definitions the driver executes (at `F32` for the bit-level tie, at `Rat` for the exact part) —
 and about the exact specification `PsV.ConvSpec`.
 
-**Not proved in Lean (carried by the correspondence on every run):** Strøm's identity, i.e.
+**Strøm's identity** (blossom transfer matrix = true convolution), i.e.
 
 ```
 theorem blossom_is_convolution (T : CTable Rat) (dim) (ck : List Rat) (xs : List Rat)
@@ -17,10 +18,19 @@ theorem blossom_is_convolution (T : CTable Rat) (dim) (ck : List Rat) (xs : List
     (R) (h : convolve T dim ck = some R) :
     (Σ over all stored coefficients of R: coef · Π_d B_d(x_d))  =  ConvSpec.specConv T dim ck xs
 ```
-The check evaluates both sides exactly in `Rat` on every generated case and demands equality (no tolerance).
-What *is* proved: the shape of the result, that the four loops are the mode product with the matrix `trafo`,
-that `factorial` (repaired) is the factorial, the value of the normalisation, linearity of `divdiff`, and that the
-antiderivative used by the specification is one.
+**is now proved in full** (`blossom_is_convolution` below: any number of dimensions, every order, every kernel with
+`n ≥ 2` knots, coinciding pairwise sums included, every point whose coordinate `dim` lies in the new knot range; the only
+arithmetic side condition is `order + n − 1 ≤ 12`, the range in which the `unsigned` factorials of the code are exact).
+The route: divided differences (Leibniz for a linear factor, annihilation of low-degree products) → `convoluted_blossom`
+in closed form incl. both early exits → Marsden's identity truncated at a knot (`blossom_sum`) → the transfer matrix
+against the new basis is a double divided difference of truncated powers; on the other side the specification's
+piecewise integral is brought to the same form (pieces as divided differences of truncated powers, any antiderivative,
+tile telescoping, Beta integral by parts); the two meet in `strom_identity_1d`; `transfer_is_mode_product` and a
+flattening of `ConvSpec.contract` lift it to tables (`blossom_is_convolution_slices`, `blossom_is_convolution`).
+The unit area of the kernel is proved for every `n ≥ 2` (`unit_area`).  The check still evaluates both sides exactly
+in `Rat` on every generated case (`driver_exact_check_holds` shows that this comparison can never fail in exact
+arithmetic under the stated hypotheses; it remains as a run-time validation of the hypotheses and of the driver).
+What is *not* proved: anything about floating-point round-off of the divided differences (see the known finding).
 -/
 namespace PsV
 open Arith
@@ -430,5 +440,34 @@ theorem driver_eval_is_table_value (R : CTable Rat) (xs : List Rat)
 example : Driver.C14.evalExact (⟨[⟨1, 4, 2, 1, [0, 1, 2, 4], 0, 4⟩], #[1, 2]⟩ : CTable Rat) [3/2] =
     ConvSpec.evalTable ⟨[⟨1, 4, 2, 1, [0, 1, 2, 4], 0, 4⟩], #[1, 2]⟩ [3/2] :=
   driver_eval_is_table_value _ _ (by intro d hd; simp at hd; subst hd; rfl)
+
+/-- **the exact comparison of the check holds for all inputs**: what the driver prints as exact value of the table
+produced by the exact model equals what it prints as specification value, whenever the table is well-formed
+(row-major strides, `naxes = nknots − order − 1`), the knots of `dim` and of the kernel strictly increase, `n ≥ 2`,
+`order + n − 1 ≤ 12`, and the point lies in the new knot range. -/
+theorem driver_exact_check_holds (T : CTable Rat) (dim : Nat) (ck : List Rat) (d : CDim Rat) (xs : List Rat)
+    (hd : T.dims[dim]? = some d)
+    (hstr : ∀ j e, T.dims[j]? = some e → e.stride = ((T.dims.map (·.naxes)).drop (j+1)).prod)
+    (hwf : ∀ e ∈ T.dims, e.naxes = e.nknots - e.order - 1)
+    (hxs : xs.length = T.dims.length)
+    (hk : d.knots.length = d.nknots) (hnax : d.naxes + d.order + 1 = d.nknots) (hn1 : 1 ≤ d.naxes)
+    (hτ : d.knots.Pairwise (· < ·)) (hy : ck.Pairwise (· < ·)) (hq : 2 ≤ ck.length)
+    (h12 : d.order + ck.length - 1 ≤ 12) :
+    ∃ R d', convolve T dim ck = some R ∧ R.dims[dim]? = some d' ∧
+      (getK d'.knots 0 ≤ xs.getD dim 0 → xs.getD dim 0 ≤ getK d'.knots (d'.nknots - 1) →
+        Driver.C14.evalExact R xs = ConvSpec.specConv T dim ck xs) :=
+  evalExact_convolve T dim ck d xs hd hstr hwf hxs hk hnax hn1 hτ hy hq h12
+
+example : ∃ R d', convolve (⟨[⟨1, 4, 2, 1, [0, 1, 2, 4], 0, 4⟩], #[1, 2]⟩ : CTable Rat) 0 [0, 1, 3] = some R ∧
+    R.dims[0]? = some d' :=
+  let ⟨R, d', h, hd', _⟩ := driver_exact_check_holds (⟨[⟨1, 4, 2, 1, [0, 1, 2, 4], 0, 4⟩], #[1, 2]⟩ : CTable Rat) 0 [0, 1, 3]
+    ⟨1, 4, 2, 1, [0, 1, 2, 4], 0, 4⟩ [5/2] rfl
+    (by intro j e h
+        rcases j with _ | j
+        · simp at h; subst h; rfl
+        · simp at h)
+    (by intro e he; simp at he; subst he; rfl)
+    rfl rfl rfl (by decide) (by decide) (by decide) (by decide) (by decide)
+  ⟨R, d', h, hd'⟩
 
 end PsV
